@@ -218,9 +218,18 @@ func manifest(o sysObj) *unstructured.Unstructured {
 				parts = append(parts, fmt.Sprintf("%s/%s/%s", d[2], d[3], d[1]))
 			}
 		}
-		ann["config.kubernetes.io/depends-on"] = strings.Join(parts, ",")
+		// (a blank after the comma is allowed: every reference is trimmed on its own)
+		sep := ","
+		if o.Rev%2 == 0 {
+			sep = ", "
+		}
+		ann["config.kubernetes.io/depends-on"] = strings.Join(parts, sep)
 	}
-	if o.DepsRaw != "" {
+	if o.DepsRaw == "<empty>" {
+		// the annotation is there and its value is the empty string: not a dependency set (the model reads the placeholder, which
+		// is no dependency set either)
+		ann["config.kubernetes.io/depends-on"] = ""
+	} else if o.DepsRaw != "" {
 		ann["config.kubernetes.io/depends-on"] = o.DepsRaw
 	}
 	if o.Keep {
